@@ -186,13 +186,17 @@ class Run(object):
                     wx, wy = -1000 - 2 * self.pairs, -1001 - 2 * self.pairs
                     self.params[wx] = dict(yields=0, gc=op[5], raises=False, nested=op[6])
                     self.params[wy] = dict(yields=0, gc=False, raises=False, nested=op[7])
-                    rx, _, ry, _ = drv.gated_pair(wx, wy, op[1], op[2], op[3], op[4], op[8])
+                    warm = op[9] if len(op) > 9 else 0
+                    rx, _, ry, _ = drv.gated_pair(wx, wy, op[1], op[2], op[3], op[4], op[8],
+                                                  wx if warm & 1 else 0, wy if warm & 2 else 0)
+                    if warm:
+                        self.out.probe('gated_callback_of_a_thread_that_already_has_a_thread_state')
                     for w2, a, r in ((wx, op[1], rx), (wy, op[2], ry)):
                         if r != a * 2 + 1:
                             self.fail('C36.1', 'overlapping first callbacks of two new threads: one returned %r, '
                                       'expected %r' % (r, a * 2 + 1))
                         st = self.state.get(w2)
-                        if st is None or st['calls'] < 1:
+                        if st is None or st['calls'] < 1 + (1 if warm & (1 if w2 == wx else 2) else 0):
                             self.fail('C36.1', 'overlapping first callbacks of two new threads: a body did not run')
                         else:
                             st['exited'] = True
@@ -295,7 +299,7 @@ class C36(core.Check):
                             rng.chance(0.12), rng.chance(0.1), rng.randint(1, 1000), rng.chance(0.4)])
             elif n == 'gatedpair':
                 ops.append(['gatedpair', rng.randint(1, 1000), rng.randint(1, 1000), rng.below(2), rng.below(2),
-                            rng.chance(0.2), rng.chance(0.3), rng.chance(0.3), rng.below(2)])
+                            rng.chance(0.2), rng.chance(0.3), rng.chance(0.3), rng.below(2), rng.below(4)])
             elif n in ('wait', 'exit'):
                 ops.append([n, rng.below(100)])
             elif n == 'pycall':
